@@ -240,6 +240,23 @@ def _generated(ctx, d, pgpy):
         ef2 = exported_fprs(bytes(k.pubkey))
         if ef2 != [(6, ef[0][1])]:
             ctx.fail('generated-twin-fingerprint', {'alg': d['alg'], 'priv': ef, 'pub': ef2})
+        # the same fingerprint for a copy, a copy of the twin and the twin of a copy - before any export or import
+        import copy as _copy
+        for form, o2 in (('copy', _copy.copy(k)), ('copy-of-twin', _copy.copy(k.pubkey)), ('twin-of-copy', _copy.copy(k).pubkey), ('copy-of-copy', _copy.copy(_copy.copy(k)))):
+            check_fpr(ctx, o2, ef[0][1], {'generated': d['alg'], 'created': str(created), 'form': form})
+        # and for a subkey generated with its own (zoned) creation time, attached to this key
+        if created is not None and spec[0] not in (A.ECDH,):
+            from pgpy.constants import KeyFlags
+            sub = pgpy.PGPKey.new(A.ECDH, C.Curve25519, created=created + timedelta(hours=1))
+            kk = _copy.copy(k)
+            kk.add_uid(pgpy.PGPUID.new('generated'), usage={KeyFlags.Certify, KeyFlags.Sign})
+            kk.add_subkey(sub, usage={KeyFlags.EncryptCommunications})
+            sfp = exported_fprs(bytes(kk))[-1][1]
+            for form, o2 in (('attached', kk), ('copy', _copy.copy(kk)), ('twin', kk.pubkey), ('reimported', pgpy.PGPKey.from_blob(bytes(kk))[0])):
+                sk2 = list(o2.subkeys.values())[0]
+                check_fpr(ctx, sk2, sfp, {'generated-subkey-of': d['alg'], 'created': str(created), 'form': form})
+                if list(o2.subkeys)[0] != sfp[-16:]:
+                    ctx.fail('subkey-index-key-differs-from-key-id', {'form': form, 'index': list(o2.subkeys)[0], 'expected': sfp[-16:]})
         if created is not None:
             t = int(created.timestamp())
             got = int.from_bytes(wire.split(bytes(k))[0].body[1:5], 'big')
